@@ -165,3 +165,43 @@ Qed.
 
 Lemma dtr_dsumbatch A : dtr (dsumbatch A) == dsumbatch (dtr A).
 Proof. unfold dsumbatch. simpl. destruct (bsh A) as [|k bs]; repeat split. Qed.
+
+(* ---- congruences ---------------------------------------------------------------------------------- *)
+
+Lemma dscale_eq A A' c : A == A' -> dscale A c == dscale A' c.
+Proof.
+  intros (e1 & e2 & e3 & e4). unfold dscale. repeat split; simpl; try assumption.
+  intros I i j HI Hi Hj. rewrite e4 by assumption. reflexivity.
+Qed.
+
+Lemma dblockdiag_eq A A' : A == A' -> dblockdiag A == dblockdiag A'.
+Proof.
+  intros (e1 & e2 & e3 & e4). unfold dblockdiag. rewrite <- e1, <- e2, <- e3.
+  destruct (bsh A) as [|k bs] eqn:HS; [apply BTeq_refl|].
+  repeat split; simpl. intros I i j HI Hi Hj.
+  destruct (Nat.eqb_spec (i / nr A) (j / nc A)); [|reflexivity].
+  destruct (Nat.eq_dec (nr A) 0) as [Z|Z]; [rewrite Z in Hi; lia|].
+  destruct (Nat.eq_dec (nc A) 0) as [Z'|Z']; [rewrite Z' in Hj; lia|].
+  apply e4; [simpl; split; [apply div_lt_mul; exact Hi|exact HI]
+            |apply Nat.mod_upper_bound; exact Z|apply Nat.mod_upper_bound; exact Z'].
+Qed.
+
+Lemma dblockinter_eq A A' : A == A' -> dblockinter A == dblockinter A'.
+Proof.
+  intros (e1 & e2 & e3 & e4). unfold dblockinter. rewrite <- e1, <- e2, <- e3.
+  destruct (bsh A) as [|k bs] eqn:HS; [apply BTeq_refl|].
+  repeat split; simpl. intros I i j HI Hi Hj.
+  destruct (Nat.eqb_spec (i mod k) (j mod k)); [|reflexivity].
+  destruct (Nat.eq_dec k 0) as [Z|Z]; [rewrite Z in Hi; lia|].
+  apply e4; [simpl; split; [apply Nat.mod_upper_bound; exact Z|exact HI]
+            |apply div_lt_mul; exact Hi|apply div_lt_mul; exact Hj].
+Qed.
+
+Lemma dsumbatch_eq A A' : A == A' -> dsumbatch A == dsumbatch A'.
+Proof.
+  intros (e1 & e2 & e3 & e4). unfold dsumbatch. rewrite <- e1, <- e2, <- e3.
+  destruct (bsh A) as [|k bs] eqn:HS; [apply BTeq_refl|].
+  repeat split; simpl. intros I i j HI Hi Hj. apply zsum_ext. intros b Hb.
+  apply e4; [simpl; split; assumption|assumption|assumption].
+Qed.
+
